@@ -1,10 +1,23 @@
 // ---- shared preamble: shims (R4, R7) ---------------------------------------------------
 // R4: message-building macros produce an opaque value; control flow of bail! is kept.
-macro_rules! format { ($($t:tt)*) => { crate::vx_shim::opaque_string() } }
-macro_rules! println { ($($t:tt)*) => { crate::vx_shim::opaque_unit() } }
-macro_rules! eprintln { ($($t:tt)*) => { crate::vx_shim::opaque_unit() } }
-macro_rules! write { ($($t:tt)*) => { crate::vx_shim::opaque_fmt_result() } }
-macro_rules! writeln { ($($t:tt)*) => { crate::vx_shim::opaque_fmt_result() } }
+// The argument expressions are still evaluated (by reference), so panics / index checks inside
+// message arguments stay proof obligations; only the formatting itself is dropped.
+macro_rules! vx_eval_args {
+    () => {};
+    ($fmt:literal) => {};
+    ($fmt:literal, $($rest:tt)*) => { vx_eval_args!(@a $($rest)*) };
+    (@a) => {};
+    (@a $name:ident = $arg:expr) => { let _ = &$arg; };
+    (@a $name:ident = $arg:expr, $($rest:tt)*) => { let _ = &$arg; vx_eval_args!(@a $($rest)*) };
+    (@a $arg:expr) => { let _ = &$arg; };
+    (@a $arg:expr, $($rest:tt)*) => { let _ = &$arg; vx_eval_args!(@a $($rest)*) };
+    ($arg:expr) => { let _ = &$arg; };
+}
+macro_rules! format { ($($t:tt)*) => {{ vx_eval_args!($($t)*); crate::vx_shim::opaque_string() }} }
+macro_rules! println { ($($t:tt)*) => {{ vx_eval_args!($($t)*); crate::vx_shim::opaque_unit() }} }
+macro_rules! eprintln { ($($t:tt)*) => {{ vx_eval_args!($($t)*); crate::vx_shim::opaque_unit() }} }
+macro_rules! write { ($dst:expr, $($t:tt)*) => {{ vx_eval_args!($($t)*); crate::vx_shim::opaque_fmt_result() }} }
+macro_rules! writeln { ($dst:expr, $($t:tt)*) => {{ vx_eval_args!($($t)*); crate::vx_shim::opaque_fmt_result() }} }
 
 pub mod vx_shim {
     use vstd::prelude::*;
@@ -31,8 +44,8 @@ pub mod anyhow {
     #[verifier::external_body]
     #[verus_spec()]
     pub fn vx_error_from<E>(e: E) -> Error { unimplemented!() }
-    macro_rules! bail { ($($t:tt)*) => { return Err(crate::anyhow::vx_error()) } }
-    macro_rules! anyhow { ($($t:tt)*) => { crate::anyhow::vx_error() } }
+    macro_rules! bail { ($($t:tt)*) => {{ vx_eval_args!($($t)*); return Err(crate::anyhow::vx_error()) }} }
+    macro_rules! anyhow { ($($t:tt)*) => {{ vx_eval_args!($($t)*); crate::anyhow::vx_error() }} }
     pub(crate) use bail;
     pub(crate) use anyhow;
 }
